@@ -622,6 +622,11 @@ func (e *specEnv) callSpec(s *SCall) Term {
 			r.GoT = gt
 		}
 		return r
+	case "callpanicked":
+		key := e.strArg(s.Args[0])
+		i := e.eval(s.Args[1])
+		x.regComp("TP:"+key, x.U.arraySort(SInt, SBool))
+		return Select(x.get(e.cur, "TP:"+key), i)
 	case "calltime":
 		key := e.strArg(s.Args[0])
 		i := e.eval(s.Args[1])
